@@ -147,7 +147,7 @@ def revolute_jac(h, first="F", what="joint", axis=2, seed=0, concrete_orientatio
 def cases(tier, seed):
     T = 120 if tier == "quick" else 900
     cs = []
-    pairings = ("PM-PM", "PM-RB", "F-RB") if tier == "quick" else ("PM-PM", "PM-RB", "RB-PM", "F-RB", "RB-F")
+    pairings = ("PM-PM", "PM-RB", "RB-PM", "F-RB") if tier == "quick" else ("PM-PM", "PM-RB", "RB-PM", "F-RB", "RB-F")
     rng = np.random.default_rng(seed)
     for p in pairings:
         nq = sum({"RB": 7, "PM": 3, "F": 0}[s] for s in p.split("-"))
